@@ -372,6 +372,9 @@ class Report:
         if self.broken and not self.violations:
             self.violation("no longer shown to hold: " + "; ".join(self.broken)[:1500], {"broken": self.broken}, found_input=False)
         lines = []
+        total_violations = len(self.violations)
+        # concrete failing inputs first, and at most 25 replay files per run (the count stays in the evidence)
+        self.violations = sorted(self.violations, key=lambda v: not v["found_input"])[:25]
         import glob
         for old in glob.glob(os.path.join(VERIF, "replays", f"{self.pid}-*.json")):
             try:
@@ -395,8 +398,14 @@ class Report:
         cov.update(self.coverage)
         if extra:
             cov.update(extra)
+        # keys the evidence schema types: keep them well-typed whatever a property module put there
+        for k in ("evaluations", "distinct_nontrivial", "states", "transitions", "traces_validated_against_impl", "obligations", "discharged", "programs", "disagreements_checked"):
+            if k in cov and not (isinstance(cov[k], int) and not isinstance(cov[k], bool)):
+                cov[k + "_detail"] = cov.pop(k)
+        if total_violations > len(self.violations):
+            cov["violations_total"] = total_violations
         ev = {"property_id": self.pid, "tier": self.tier, "seed": self.seed, "level": self.level,
-              "coverage": cov, "assumptions": self.assumptions, "wall_s": round(wall, 2), "violations": len(self.violations)}
+              "coverage": cov, "assumptions": self.assumptions, "wall_s": round(wall, 2), "violations": total_violations}
         with open(os.path.join(VERIF, "evidence", f"{self.pid}.json"), "w") as f:
             json.dump(ev, f, indent=1)
         for l in self.known_lines:
@@ -424,6 +433,16 @@ def standard_proof_phase(rep, targets, imports, theorems):
     bad = scan_forbidden()
     if bad:
         rep.broken.append("forbidden declarations in the development: " + ", ".join(bad[:5]))
+    if rep.tier == "thorough" and not rep.broken:
+        # independent re-check of the compiled property file and everything it depends on
+        ok, out = coqchk(["PL.Properties." + rep.pid])
+        m = re.search(r"\* Axioms:\s*(.*?)\n\s*\n", out, re.S)
+        axioms = m.group(1).strip() if m else "?"
+        clean = ok and axioms == "<none>" and all(f"{k}: <none>" in re.sub(r"\s+", " ", out) for k in
+                  ("relying on type-in-type", "relying on unsafe (co)fixpoints", "whose positivity is assumed"))
+        rep.coverage["coqchk"] = {"ok": ok, "axioms": axioms}
+        if not clean:
+            rep.broken.append("coqchk does not accept Properties/" + rep.pid + ".vo cleanly: " + out[-500:])
     return not rep.broken
 
 TRUSTED_BASE_COMMON = [
